@@ -1,4 +1,4 @@
-from runner import CbmcUnit, Entry
+from runner import CbmcUnit, Entry, PathUnit, PathEntry
 
 OPS = ["push_back", "resize(+2)", "reserve(8)", "shrink_to_fit", "swap", "assign(3,x)"]
 
@@ -13,7 +13,13 @@ def units(tier):
     for n in ([0, 1, 2] if q else [0, 1, 2, 3]):
         for op in range(6):
             ents.append(Entry("vp_main_vec_n%d_op%d" % (n, op), unwind=10, timeout=900, desc="AlignedVector<int> with %d elements, then %s: data() aligned, elements preserved" % (n, OPS[op])))
-    return [CbmcUnit("aligned", "harness/C14_aligned.cpp", ents, heap_max=64, native_defines=["VP_NATIVE_BUILD"], validate=False, elem_unwind=10, mem_unwind=20,
+    tbb = PathUnit("aligned_tbb", "harness/C14_tbb.cpp", [
+        PathEntry("vp_main_tbb_alignedmalloc", wall=600, desc="TBB configuration: alignedMalloc(size, align) for every power-of-two alignment 1..4096 x 14 sizes (0..12288, below/above the allocator's 1024-byte class, multiples and non-multiples of the alignment), three live blocks: null or aligned, usable, released with alignedFree"),
+        PathEntry("vp_main_tbb_vector", wall=600, desc="TBB configuration: AlignedVector<int> push_back x 6, resize(300), shrink: data() 64-byte aligned, elements preserved")],
+        defines=["RKCOMMON_TASKING_TBB", "VP_PATH"], native_defines=["VP_NATIVE_BUILD"], native_libs=["-ltbbmalloc"],
+        assumptions=["tbbmalloc (closed library) replaced by its documented contract: scalable_aligned_malloc returns null for size 0 / non-power-of-two alignment, else a block aligned to exactly the requested alignment; scalable_malloc promises no more than 16-byte alignment (adversarially chosen); scalable_*free release a block once"],
+        stubs=["scalable_aligned_malloc / scalable_malloc / scalable_aligned_free / scalable_free: contract models in vp/llpath.py"])
+    return [tbb, CbmcUnit("aligned", "harness/C14_aligned.cpp", ents, heap_max=64, native_defines=["VP_NATIVE_BUILD"], validate=False, elem_unwind=10, mem_unwind=20,
                      assumptions=["non-TBB back end (_mm_malloc over posix_memalign); posix_memalign by contract: null/ENOMEM or a fresh block of exactly the requested size; "
                                   "its precondition is an obligation", "TBB scalable_aligned_malloc is a closed library: contract only, not checked",
                                   "cbmc addresses: alignment is decided on the offset within the returned block (the stub returns offset 0)"],
